@@ -436,6 +436,7 @@ func c16Selectors(c *Ctx, schema *routeSchema) {
 			{Kind: "post", Path: "/zz/{s}:vb", Body: "*", Add: []dyn.Rule{{Kind: "get", Path: "/zz/{t}/x", Body: "zz"}}},
 			{Kind: "get", Path: "/zz/{s=a/*}", Add: []dyn.Rule{{Kind: "get", Path: "/zz/{s}"}}}, // the additional binding collides with S1's own
 		} {
+			_ = bi
 			res, m, impl := c16Register(schema, bad, nil, nonEmpty)
 			r.Eval(1)
 			cs := c16Case{Kind: "nested", Rule: bad, NonEmpty: nonEmpty}
@@ -464,6 +465,37 @@ func c16Selectors(c *Ctx, schema *routeSchema) {
 					}
 				}
 				r.Outcome("late-failure->rejected")
+			}
+		}
+		// a later binding that lands on a node and verb the SAME method already owns (variable nodes
+		// are keyed by their pattern, not by the field): its field path, body and response_body
+		// are still checked
+		for bi, bad := range []dyn.Rule{
+			{Kind: "get", Path: "/own/{s}", Add: []dyn.Rule{{Kind: "get", Path: "/own/{nosuch}"}}},
+			{Kind: "get", Path: "/own/{s}/x", Add: []dyn.Rule{{Kind: "get", Path: "/own/{n.nosuch}/x"}}},
+			{Kind: "get", Path: "/own/{s=a/*}", Add: []dyn.Rule{{Kind: "get", Path: "/own/{nosuch=a/*}"}}},
+			{Kind: "post", Path: "/own/{s}", Body: "*", Add: []dyn.Rule{{Kind: "post", Path: "/own/{s}", Body: "nosuch"}}},
+			{Kind: "post", Path: "/own/{s}", Body: "*", Add: []dyn.Rule{{Kind: "post", Path: "/own/{s}", Body: "*", Resp: "nosuch"}}},
+			{Kind: "get", Path: "/own/{s}", Add: []dyn.Rule{{Kind: "get", Path: "/own/{s}", Add: []dyn.Rule{{Kind: "get", Path: "/own/deeper"}}}}}, // nested bindings on the owned node
+		} {
+			res, m, impl := c16Register(schema, bad, nil, nonEmpty)
+			r.Eval(1)
+			cs := c16Case{Kind: "nested", Rule: bad, NonEmpty: nonEmpty}
+			key := fmt.Sprintf("unknown-field-on-own-node #%d nonempty=%v", bi, nonEmpty)
+			switch {
+			case res.panicked:
+				r.Violation(report.Violation{Oracle: "register-panic", Key: "register-panic " + key, Case: cs, Note: res.err})
+			case res.accepted:
+				r.Outcome("own-node-unknown-field->accepted")
+				r.Violation(report.Violation{Oracle: "invalid-template-accepted", Key: "invalid-template-accepted " + key, Case: cs, Note: "an additional binding with an unknown field path was accepted because it lands on a node the method already owns"})
+			default:
+				if res.before != res.after {
+					r.Violation(report.Violation{Oracle: "rejection-not-atomic", Key: "rejection-not-atomic " + key, Case: cs})
+				}
+				if bad := c16ProbeIntact(schema, m, impl, nonEmpty, false); bad != "" {
+					r.Violation(report.Violation{Oracle: "rejection-damaged-routes", Key: "rejection-damaged-routes " + key, Case: cs, Note: bad})
+				}
+				r.Outcome("own-node-unknown-field->rejected")
 			}
 		}
 		flat := dyn.Rule{Kind: "get", Path: "/nest/a", Add: []dyn.Rule{{Kind: "get", Path: "/nest/bb"}, {Kind: "post", Path: "/nest/{s}"}}}
@@ -670,9 +702,11 @@ func c16SecondOwnerRevision(c *Ctx) {
 	revs := []rev{
 		{"same rule", &dyn.Rule{Kind: "get", Path: "/rev/one/{s}"}, "accept", []string{"/rev/one/x"}},
 		{"new valid binding", &dyn.Rule{Kind: "get", Path: "/rev/two/{s}"}, "accept", []string{"/rev/one/x", "/rev/two/x"}},
+		{"same primary binding with a new additional binding", &dyn.Rule{Kind: "get", Path: "/rev/one/{s}", Add: []dyn.Rule{{Kind: "get", Path: "/rev/three/{t}"}}}, "accept", []string{"/rev/one/x", "/rev/three/x"}},
 		{"new valid binding with additional bindings", &dyn.Rule{Kind: "get", Path: "/rev/two/{s}", Add: []dyn.Rule{{Kind: "get", Path: "/rev/three/{t}"}}}, "accept", []string{"/rev/one/x", "/rev/two/x", "/rev/three/x"}},
 		{"malformed template", &dyn.Rule{Kind: "get", Path: "/rev/{s"}, "reject", []string{"/rev/one/x"}},
 		{"unknown field path", &dyn.Rule{Kind: "get", Path: "/rev/two/{zz}"}, "reject", []string{"/rev/one/x"}},
+		{"unknown field path on the node the first revision owns", &dyn.Rule{Kind: "get", Path: "/rev/one/{zz}"}, "reject", []string{"/rev/one/x"}},
 		{"unresolvable body selector", &dyn.Rule{Kind: "post", Path: "/rev/two", Body: "zz"}, "reject", []string{"/rev/one/x"}},
 		{"nested additional bindings", &dyn.Rule{Kind: "get", Path: "/rev/two/{s}", Add: []dyn.Rule{{Kind: "get", Path: "/rev/three/{s}", Add: []dyn.Rule{{Kind: "get", Path: "/rev/four/{s}"}}}}}, "reject", []string{"/rev/one/x"}},
 		{"binding of another method", &dyn.Rule{Kind: "get", Path: "/rev/taken/{s}"}, "reject", []string{"/rev/one/x"}},
